@@ -23,8 +23,8 @@ func soupLayers() []any {
 	arg := c08Arg()
 	doc := c08Place(dir, arg).(map[string]any)
 	if vTier() > 0 && ndChoice(2) == 1 {
-		dir2 := c08Dirs[ndChoice(len(c08Dirs))]
-		doc["k"] = map[string]any{dir2: c08Strings[ndChoice(len(c08Strings))], "a": 2}
+		dir2 := []string{"$merge", "$replace", "$encode", "$output", "$repeat"}[ndChoice(5)]
+		doc["k"] = map[string]any{dir2: []any{"a", `$"{a}"`, "json", true, 2}[ndChoice(5)], "a": 2}
 	}
 	vObserve("doc", doc)
 	if ndChoice(2) == 0 {
